@@ -356,3 +356,71 @@ def proof_stage(chk, props_module, extra_targets=(), search=None):
     chk.coverage['theorems'] = names
     chk.coverage['print_assumptions'] = {n: (assum[n] or 'Closed under the global context') for n in names}
     return True
+
+
+# ---------------------------------------------------------------------------------------------------
+# extracted OCaml runner
+
+EXTRACT = os.path.join(COQ, 'extract')
+RUNNER = os.path.join(EXTRACT, 'build', 'runner')
+
+
+def build_runner():
+    """(Re)build the OCaml program extracted from Run/Run.v when it is older than Run.vo. Build lock held."""
+    run_vo = os.path.join(COQ, 'theories', 'Run', 'Run.vo')
+    br = coq_make(['theories/Run/Run.vo'])
+    if not br.ok:
+        return br
+    with Lock('runner'):
+        srcs = [run_vo, os.path.join(EXTRACT, 'Extract.v'), os.path.join(EXTRACT, 'driver.ml')]
+        if os.path.exists(RUNNER) and all(os.path.getmtime(RUNNER) >= os.path.getmtime(s) for s in srcs):
+            return br
+        b = os.path.join(EXTRACT, 'build')
+        os.makedirs(b, exist_ok=True)
+        shutil.copy(os.path.join(EXTRACT, 'driver.ml'), b)
+        p = subprocess.run(['timeout', '600', 'coqc'] + COQ_FLAGS + ['-o', 'Extract.vo', os.path.join(EXTRACT, 'Extract.v')],
+                           cwd=b, stdout=subprocess.PIPE, stderr=subprocess.STDOUT, universal_newlines=True)
+        if p.returncode != 0:
+            return BuildResult(False, p.stdout, 'extract/Extract.v', p.stdout[-3000:])
+        p = subprocess.run(['timeout', '600', 'ocamlfind', 'ocamlopt', '-O3', '-w', '-a', 'model.mli', 'model.ml', 'driver.ml',
+                            '-o', 'runner.tmp'], cwd=b, stdout=subprocess.PIPE, stderr=subprocess.STDOUT, universal_newlines=True)
+        if p.returncode != 0:
+            return BuildResult(False, p.stdout, 'extract/driver.ml', p.stdout[-3000:])
+        os.replace(os.path.join(b, 'runner.tmp'), RUNNER)
+    return br
+
+
+def run_model(lines, shards=NPROC):
+    """Run command lines through the extracted model. Returns list of outcome strings."""
+    if not lines:
+        return []
+    n = max(1, min(shards, len(lines) // 200 or 1))
+    size = (len(lines) + n - 1) // n
+    parts = [lines[i:i + size] for i in range(0, len(lines), size)]
+    procs = []
+    for part in parts:
+        p = subprocess.Popen(['bash', '-c', 'ulimit -s unlimited 2>/dev/null; exec %s' % RUNNER], stdin=subprocess.PIPE,
+                             stdout=subprocess.PIPE, universal_newlines=True)
+        procs.append((p, part))
+    import threading
+    outs = [None] * len(procs)
+
+    def feed(i):
+        p, part = procs[i]
+        o, _ = p.communicate('\n'.join(part) + '\n')
+        outs[i] = o
+
+    ths = [threading.Thread(target=feed, args=(i,)) for i in range(len(procs))]
+    for t in ths:
+        t.start()
+    for t in ths:
+        t.join()
+    res = []
+    for (p, part), o in zip(procs, outs):
+        ls = o.split('\n')
+        if ls and ls[-1] == '':
+            ls.pop()
+        if p.returncode != 0 or len(ls) != len(part):
+            raise RuntimeError('model runner failed (rc=%s, %d answers for %d commands): %s' % (p.returncode, len(ls), len(part), o[-500:]))
+        res.extend(ls)
+    return res
